@@ -115,6 +115,17 @@ CLAIMED = {
         note=BASE_NOTE + 'PARTIAL: uamiv Memmap reader only; lateral_boundary, meteorological and bpch readers are not in this check yet (the wind reader is known not to terminate on some prefixes, see DESIGN.md).',
         technique='Lean 4 proof (prefix invariance of fixed-stride reads, divisibility argument for the partial-time check) + model/implementation correspondence over cut points',
         design='§7 C08-C09-C13-C14'),
+    'C08': dict(
+        text=('Lean theorem for ALL well-formed uamiv contents (any species list, grid, nz>=1, >=1 steps, any payload words): '
+              'the fixed-stride memory-mapped reader applied to the written bytes presents exactly the written content '
+              '(bridge between the record codec and the stride arithmetic, proved by induction); two-digit-year dates decode '
+              'back for every date 1970-2069; whole hours survive the float-hour storage and the x100 loop; hour bit '
+              'patterns round-trip. Correspondence on every run: library writer bytes == model, library reader view == '
+              'model, plus the real-code oracle read(write(f)) == f and write(read(write(f))) byte-identical, with '
+              'day/year/leap/century roll-overs over-sampled. Two genuine defects repaired by fix: commits.'),
+        note=BASE_NOTE + 'PARTIAL: uamiv (average/emissions/instant/airquality) only; lateral_boundary, landuse and the meteorological formats are not in this check yet. Idempotent rewrite is checked on the real code, not proved.',
+        technique='Lean 4 proof (codec/stride bridge by induction over steps, species, layers; omega for date arithmetic) + model/implementation correspondence + round-trip oracle',
+        design='§7 C08-C09-C13-C14'),
 }
 
 NOT_YET = {}
